@@ -52,9 +52,17 @@ pub fn body_of(case: &Case) -> String {
 pub fn compress(data: &[u8], enc: &str, level: u8, window: u8) -> Vec<u8> {
     match enc {
         "gzip" => {
-            let mut e = flate2::write::GzEncoder::new(Vec::new(), flate2::Compression::new(level.min(9) as u32));
-            e.write_all(data).unwrap();
-            e.finish().unwrap()
+            // one case in three: the body as two gzip members (a valid gzip stream: RFC 1952, 2.2), cut at a generated point
+            let cut = if window % 3 == 0 && data.len() >= 2 { Some(1 + (window as usize * 7919) % (data.len() - 1)) } else { None };
+            let member = |part: &[u8]| {
+                let mut e = flate2::write::GzEncoder::new(Vec::new(), flate2::Compression::new(level.min(9) as u32));
+                e.write_all(part).unwrap();
+                e.finish().unwrap()
+            };
+            match cut {
+                Some(c) => [member(&data[..c]), member(&data[c..])].concat(),
+                None => member(data),
+            }
         }
         "deflate" => {
             let mut e = flate2::write::ZlibEncoder::new(Vec::new(), flate2::Compression::new(level.min(9) as u32));
@@ -91,11 +99,18 @@ pub fn decompress_complete(data: &[u8], enc: &str) -> Result<Vec<u8>, String> {
     let mut out = Vec::new();
     match enc {
         "gzip" => {
-            let mut d = flate2::bufread::GzDecoder::new(data);
-            d.read_to_end(&mut out).map_err(|e| format!("gzip stream invalid or truncated: {e}"))?;
-            let rest = d.into_inner();
-            if !rest.is_empty() {
-                return Err(format!("{} bytes left over after the gzip stream", rest.len()));
+            // member by member (RFC 1952, 2.2: a gzip file is a series of members); anything that is not a member is left over
+            let mut rest = data;
+            loop {
+                let mut d = flate2::bufread::GzDecoder::new(rest);
+                d.read_to_end(&mut out).map_err(|e| format!("gzip stream invalid or truncated: {e}"))?;
+                rest = d.into_inner();
+                if rest.is_empty() {
+                    break;
+                }
+                if rest.len() < 2 || rest[0] != 0x1f || rest[1] != 0x8b {
+                    return Err(format!("{} bytes left over after the gzip stream", rest.len()));
+                }
             }
         }
         "deflate" => {
@@ -330,7 +345,7 @@ pub fn strategy() -> BoxedStrategy<Case> {
 pub fn run(ctx: &Ctx) -> Report {
     let mut rep = Report::new(
         "C14",
-        "case = generated document (0 B .. ~170 KiB: single, repeated 40x/200x, with up to 100000 incompressible characters, so that single calls of the re-encoder exceed its staging buffer) x filters that find their target (HTML filters, in 35% of the cases with append_text / prepend_text / replace_text filters placed among them) x encoding in {gzip, deflate(zlib), br} x producer settings (flate2 level 0..9, zlib streams declaring windows of 2^8..2^15 bytes, brotli quality 0..11, window 10..24) x header spellings \
+        "case = generated document (0 B .. ~170 KiB: single, repeated 40x/200x, with up to 100000 incompressible characters, so that single calls of the re-encoder exceed its staging buffer) x filters that find their target (HTML filters, in 35% of the cases with append_text / prepend_text / replace_text filters placed among them) x encoding in {gzip, deflate(zlib), br} x producer settings (flate2 level 0..9, zlib streams declaring windows of 2^8..2^15 bytes, a third of the gzip bodies as two members, brotli quality 0..11, window 10..24) x header spellings \
          x schedule over the COMPRESSED stream (whole, byte-wise, strides 1/2/3/7/10/4096, cuts inside the first 12 bytes, generated k-partitions) ; also unsupported encodings (identity, zstd, compress, 'gzip, br', ' gzip'); \
          oracle = an independent decoder instance accepts the output as ONE complete stream with nothing left over and dec(out) == the same filters applied to the plain body in one chunk; unsupported encoding => no chain is created and out == in; \
          non-trivial = the filters changed the document and a cut falls inside the first 10 or the last 8 bytes of the compressed stream; distinct by case hash",
